@@ -1,35 +1,42 @@
 package stats
 
 import (
-	"sync/atomic"
+	"sync"
 
 	"github.com/internetarchive/Zeno/internal/pkg/verifhook"
 )
 
 type mean struct {
+	mu    sync.Mutex // count and sum must change together
 	count uint64
 	sum   uint64
 }
 
 func (m *mean) add(value uint64) {
-	atomic.AddUint64(&m.count, 1)
+	m.mu.Lock()
+	defer m.mu.Unlock()
+
+	m.count++
 	verifhook.At("stats.mean.add.mid", "")
-	atomic.AddUint64(&m.sum, value)
+	m.sum += value
 }
 
 func (m *mean) get() float64 {
-	count := atomic.LoadUint64(&m.count)
-	sum := atomic.LoadUint64(&m.sum)
+	m.mu.Lock()
+	defer m.mu.Unlock()
 
-	if count == 0 {
+	if m.count == 0 {
 		return 0
 	}
 
-	return float64(sum) / float64(count)
+	return float64(m.sum) / float64(m.count)
 }
 
 func (m *mean) reset() {
-	atomic.StoreUint64(&m.count, 0)
+	m.mu.Lock()
+	defer m.mu.Unlock()
+
+	m.count = 0
 	verifhook.At("stats.mean.reset.mid", "")
-	atomic.StoreUint64(&m.sum, 0)
+	m.sum = 0
 }
